@@ -8,9 +8,22 @@ if "--target" in sys.argv:
     target = sys.argv[sys.argv.index("--target") + 1]
 env = dict(os.environ); env["CARGO_TARGET_DIR"] = target; env["CARGO_NET_OFFLINE"] = "true"; env.pop("RUSTFLAGS", None)
 cmd = ["cargo", "nextest", "run", "--workspace", "--no-fail-fast", "--tool-config-file", "pb:/w/lib/nextest.toml", "--profile", "pb", "--test-threads", "8", "--offline"]
+if "--only-stable" in sys.argv:
+    # skip the tests that fail on the unchanged tree too (they need a live cluster and only burn 60 s timeouts)
+    af = json.load(open("/root/.vp/BASELINE.json"))["always_fail"]
+    names = []
+    for t in af:
+        for pre in ("scylla::integration::", "scylla::"):
+            if t.startswith(pre):
+                names.append(t[len(pre):]); break
+    cmd += ["-E", "not (" + " | ".join("test(=%s)" % n for n in names) + ")"]
+cands = [os.path.join(target, "nextest", "pb", "junit.xml"), os.path.join(repo, "target", "nextest", "pb", "junit.xml")]
+for c in cands:
+    if os.path.exists(c):
+        os.remove(c)
 p = subprocess.run(cmd, cwd=repo, env=env, stdout=subprocess.PIPE, stderr=subprocess.STDOUT, text=True)
-junit = os.path.join(target, "nextest", "pb", "junit.xml")
-if not os.path.exists(junit):
+junit = next((c for c in cands if os.path.exists(c)), None)
+if junit is None:
     print(p.stdout[-3000:]); print("NO JUNIT (build failure?)"); sys.exit(2)
 passed, failed = set(), set()
 for tc in ET.parse(junit).getroot().iter("testcase"):
